@@ -207,6 +207,19 @@ func (ev *astEnv) lookupVar(obj types.Object) Value {
 				panic(unsupported("local " + o.Name() + " not yet allocated at this point"))
 			}
 		}
+		// captured variable of a closure: the free variable is a pointer to the enclosing function's cell
+		if ev.f != nil {
+			for _, fv := range ev.f.fn.FreeVars {
+				if fv.Name() == o.Name() {
+					if pv, ok := ev.f.env[fv].(*PtrV); ok && pv.Ref != nil {
+						return e.load(ev.s, pv.Ref)
+					}
+				}
+			}
+		}
+		if pv, ok := e.fvByName[o.Name()].(*PtrV); ok && pv.Ref != nil {
+			return e.load(ev.s, pv.Ref)
+		}
 		panic(unsupported("cannot resolve variable " + o.Name()))
 	case *types.Const:
 		return ev.constOf(o.Val(), o.Type())
